@@ -187,7 +187,9 @@ CLAIMS = {
     "C19": dict(
         text=("Partial. Props/C19.lean: the footer loader (Core/Footer.lean) accepts only metadata slices that lie inside the file (footer_ok_in_file) and - after the repair - never sizes a buffer from a length "
               "larger than the file (footer_checked_alloc_le_size; the pinned commit's 4 GiB allocation from a 12-byte file is the witness footer_unchecked_alloc_unbounded); the CSV decoder is a total function on "
-              "arbitrary bytes whose buffered output never exceeds its input (decode_weight_le, induction over the bytes); a truncated RLE/bit-packed stream is reported, not over-read (Props/C10). Tie: ~3700 Parquet "
+              "arbitrary bytes whose buffered output never exceeds its input (decode_weight_le, induction over the bytes); a truncated RLE/bit-packed stream is reported, not over-read (Props/C10); the thrift varint reader (Core/Varint.lean) never evaluates a shift of 64 or more on any input, is total, and a value "
+              "consumes at most ten bytes (vlq_checked_never_overflows, vlq_total, vlq_consumed_bound; the pinned commit's overflow on eleven continuation bytes is the witness vlq_unchecked_overflows, F62). Tie: the real thrift reader "
+              "on 3000 (quick) / 200000 byte strings through a cfg hook must return exactly the model's value and consumed length; ~3700 Parquet "
               "mutants (every truncation length, per-byte corruptions {^01,^80,=00,=FF}, byte insert/delete of the small test files; sampled footer / page-header / data positions of larger ones; crafted footer "
               "lengths and magics checked against the footer model) and ~360 malformed CSV inputs (invalid UTF-8, unterminated quotes, ragged rows, NUL bytes, 3 MB fields, 5000 columns, random CSV-ish bytes x "
               "dialect options), each read by SELECT * and count(*) in a child process with a wall clock and a resident-memory watchdog: outcome must be rows or an error."),
